@@ -169,7 +169,7 @@ def c06_generate(seed: int, tier: str) -> dict:
     if chance(orr, 0.3):
         # a child offered under a name the group already has: refused (ValueError), the
         # caller carries on - and the group is as before
-        plain = [tuple(p) for p, _ in leaves if len(p) >= 1 and not isinstance(p[-1], int) and p[0] not in ("sc",) and "threshold" not in p and "rate" not in p]
+        plain = [tuple(p) for p, _ in leaves if len(p) >= 1 and not isinstance(p[-1], int) and p[0] not in ("sc", "sa", "sv") and "threshold" not in p and "rate" not in p]
         if plain:
             path = pick(orr, plain)
             ops.insert(orr.randrange(len(ops) + 1), {"actor": "W", "do": ["add_existing", list(path), PW.gen_leaf(orr)["values"]]})
@@ -263,13 +263,16 @@ def c06_check_all(res, step, root, tree, models, leaves, dates, what):
         for d in dates[:: max(1, len(dates) // 12)]:
             res.count("clause:C06.scale")
             want = []
+            key = next(k for k in node["brackets"][0] if k != "threshold")  # rate | amount | average_rate
             for i in range(len(node["brackets"])):
-                t, r = models[(name, i, "threshold")].at(d), models[(name, i, "rate")].at(d)
+                t, r = models[(name, i, "threshold")].at(d), models[(name, i, key)].at(d)
                 if t is not None and r is not None:
                     want.append((t, r))
             want.sort()
             at = sc(d)
-            got = sorted(zip(at.thresholds, at.rates))
+            res.count(f"probe:scale_of_{key}s" + ("_single" if node.get("type") else ""))
+            # (at a date where no bracket defines an amount the scale comes back as an empty scale of rates)
+            got = sorted(zip(at.thresholds, at.amounts if hasattr(at, "amounts") else at.rates))
             if [tuple(map(float, x)) for x in got] != [tuple(map(float, x)) for x in want]:
                 res.violate("C06.scale", step, scale=name, date=d, expected=want, got=got, after=what)
                 return
